@@ -60,6 +60,7 @@ FAMILIES = {
     "maint-directed": "directed",
     "backlog-directed": "directed",
     "dreject-directed": "directed",
+    "twoside-directed": "directed",
     # broker maintenance (run when any client connects or disconnects) while messages with short, default and day-long execution
     # timeouts are in flight with live consumers: nothing is taken away from a live holder before its timeout
     "maint": ([("q1", None, "NORMAL")], ["ta"],
@@ -137,6 +138,22 @@ def directed_dreject():
     return out
 
 
+def directed_twoside():
+    """a consumer is finished while its client gives the message it holds back itself (the two give-backs of a shutdown), the
+    settling calls take time (subscribers that await), another consumer is listening: whoever takes the message next keeps it"""
+    out = []
+    all_w = {"enq": 1, "consume": 1, "reject": 1, "ack": 1, "sleep": 1, "finish": 1, "start": 1}
+    for slow in (0, 3, 30):
+        for settle in ("reject", "ack"):
+            for gap in (0, 1, 10):
+                ops = [("start", 0), ("start", 1), ("enqx", "ta", None, None), ("enqx", "ta", None, None), ("consume", 0), ("finish_bg", 0), (settle, 0, 0)]
+                ops += [("sleep", gap)] if gap else []
+                ops += [("consume", 1), ("join_finish", 0), ("consume", 1), ("consume", 1), ("ack", 1, 0), ("ack", 1, 0), ("consume", 1)]
+                out.append(dict(seed=8100 + len(out), consumers=[("q1", None, "NORMAL"), ("q1", None, "NORMAL")], topics=["ta"], script=ops,
+                                weights=all_w, consume_tmo_ms=[60], max_ids=4, slow_signals_ms=slow, fifo_only=True, no_inject=True))
+    return out
+
+
 def directed_maint():
     """a message with execution timeout T is held by a live consumer for w seconds; other clients connect / disconnect
     (maintenance) meanwhile; then it is settled, and a second one goes through: nothing is taken from a live holder"""
@@ -156,7 +173,7 @@ PER_PROPERTY = {
     "C01": ["n", "n+x", "n+d", "n+n", "topics", "2q", "same-due", "same-due-topics", "flush"],
     "C05": ["delay", "latency", "due-behind", "backlog-directed", "dreject-directed", "n+d", "same-due"],
     "C12": ["ttl", "n+x", "n"],
-    "C14": ["n+n", "topics", "n+x", "2q", "maint", "maint-directed"],
+    "C14": ["n+n", "topics", "n+x", "2q", "maint", "maint-directed", "twoside-directed"],
     "C15": ["fifo1", "fifoprio", "fifo-ret", "starve", "pause", "pause-directed", "n"],
     "C07": ["n", "n+x", "n+d"],
 }
@@ -273,7 +290,8 @@ def run(pid: str, tier: str, seed: int, *, replay: dict | None = None) -> int:
             for fam in PER_PROPERTY[pid]:
                 if FAMILIES[fam] == "directed":
                     scs += [dict(sc, backend=be) for sc in {"pause-directed": directed_pause, "maint-directed": directed_maint,
-                                                            "backlog-directed": directed_backlog, "dreject-directed": directed_dreject}[fam]()
+                                                            "backlog-directed": directed_backlog, "dreject-directed": directed_dreject,
+                                                            "twoside-directed": directed_twoside}[fam]()
                             if not (fam == "backlog-directed" and be == "rabbit")]   # (RabbitMQ: finding rabbit-foreign-topic-blocks, owned by C11)
                     continue
                 consumers, topics, extra = FAMILIES[fam]
